@@ -35,6 +35,46 @@ func c30accept(wire []byte) error {
 	return t.Validate(context.Background())
 }
 
+// c30acceptInBlock is the acceptance of transactions that arrive inside a block, as the miner's
+// ValidateTransactions runs it: decode, ComputeProperties, ValidateWrtTimeForBlock(block time, !aggregate), and with
+// an aggregate client signature scheme one batched check over (signature, hash) of all transactions.
+func c30acceptInBlock(scheme string, wires [][]byte, blockTime common.Timestamp, batch int) error {
+	ctx := context.Background()
+	agg := encryption.GetAggregateSignatureScheme(scheme, len(wires), batch)
+	for i, w := range wires {
+		t := Provider().(*Transaction)
+		if err := json.Unmarshal(w, t); err != nil {
+			return fmt.Errorf("decode: %v", err)
+		}
+		if err := t.ComputeProperties(); err != nil {
+			return fmt.Errorf("properties: %v", err)
+		}
+		if t.OutputHash == "" {
+			return fmt.Errorf("no output hash")
+		}
+		if err := t.ValidateWrtTimeForBlock(ctx, blockTime, agg == nil); err != nil {
+			return err
+		}
+		if agg != nil {
+			ss, err := t.GetSignatureScheme(ctx)
+			if err != nil {
+				return err
+			}
+			if err := agg.Aggregate(ss, i, t.Signature, t.Hash); err != nil {
+				return err
+			}
+		}
+	}
+	if agg != nil {
+		if ok, err := agg.Verify(); err != nil {
+			return err
+		} else if !ok {
+			return fmt.Errorf("aggregate signature check failed")
+		}
+	}
+	return nil
+}
+
 func c30scheme(name string, i int) encryption.SignatureScheme {
 	if name == encryption.SignatureSchemeEd25519 {
 		return vkeys.ED(vkit.Seed(), "txn", i)
@@ -114,6 +154,38 @@ func TestC30_SignatureBindsFields(t *testing.T) {
 		}
 		kind := rapid.SampledFrom([]string{"creation_date", "nonce", "client_id", "public_key", "client_id+public_key", "to_client_id", "value", "value-high", "data", "fee", "type", "hash", "signature", "signature-other-key"}).Draw(t, "tamper")
 		rehash := rapid.Bool().Draw(t, "recomputeHash")
+		// where the tampered transaction shows up: put by a client, or inside a block among other transactions
+		path := rapid.SampledFrom([]string{"put", "block", "put"}).Draw(t, "path")
+		var blockWires [][]byte
+		pos, batch := 0, 1
+		if path == "block" {
+			txn.OutputHash = txn.ComputeOutputHash()
+			wire, _ = json.Marshal(txn)
+			k := rapid.IntRange(0, 2).Draw(t, "companions")
+			pos = rapid.IntRange(0, k).Draw(t, "position")
+			batch = rapid.IntRange(1, k+1).Draw(t, "batch")
+			for i := 0; i <= k; i++ {
+				if i == pos {
+					blockWires = append(blockWires, wire)
+					continue
+				}
+				cs := c30scheme(name, 40+i)
+				c := Provider().(*Transaction)
+				c.ClientID, c.PublicKey = c30id(cs), cs.GetPublicKey()
+				c.ToClientID = txn.ToClientID
+				c.Nonce, c.Value, c.CreationDate = int64(i+1), currency.Coin(i), txn.CreationDate
+				c.TransactionData = fmt.Sprintf("companion %d", i)
+				if _, err := c.Sign(cs); err != nil {
+					t.Fatalf("VERIF-HARNESS-ERROR sign: %v", err)
+				}
+				c.OutputHash = c.ComputeOutputHash()
+				cw, _ := json.Marshal(c)
+				blockWires = append(blockWires, cw)
+			}
+			if err := c30acceptInBlock(name, blockWires, common.Now(), batch); err != nil {
+				t.Fatalf("%s", vkit.Violation("C30", "valid-transaction-rejected-in-block", "a block of correctly signed transactions is rejected: %v :: %s", err, blockWires))
+			}
+		}
 		tt := Provider().(*Transaction)
 		_ = json.Unmarshal(wire, tt)
 		field := kind
@@ -175,8 +247,15 @@ func TestC30_SignatureBindsFields(t *testing.T) {
 			return
 		}
 		st.Class("tamper/" + kind)
-		st.NonTrivial(string(wire), kind, rehash, string(twire), cacheMode)
-		err := c30accept(twire)
+		st.Class("path/" + path)
+		st.NonTrivial(string(wire), kind, rehash, string(twire), cacheMode, path, pos, batch)
+		var err error
+		if path == "block" {
+			blockWires[pos] = twire
+			err = c30acceptInBlock(name, blockWires, common.Now(), batch)
+		} else {
+			err = c30accept(twire)
+		}
 		if err == nil {
 			key := "tampered-accepted:" + field
 			if field == "fee" {
@@ -185,11 +264,11 @@ func TestC30_SignatureBindsFields(t *testing.T) {
 				key = "unbound-field=TransactionType"
 			}
 			if !st.Known(key) {
-				t.Fatalf("%s", vkit.Violation("C30", key, "transaction still accepted after tampering %q (hash recomputed: %v, client cache: %s): signed %s -> tampered %s", kind, rehash, cacheMode, wire, twire))
+				t.Fatalf("%s", vkit.Violation("C30", key, "transaction still accepted after tampering %q (hash recomputed: %v, client cache: %s, arriving by %s, place %d of %d in the block, batch %d): signed %s -> tampered %s", kind, rehash, cacheMode, path, pos, len(blockWires), batch, wire, twire))
 			}
 		}
 		if st.WantSample(true) {
-			st.Sample(true, map[string]interface{}{"scheme": name, "type": txn.TransactionType, "tamper": kind, "hash_recomputed": rehash, "client_cache": cacheMode, "rejected_with": fmt.Sprint(err)})
+			st.Sample(true, map[string]interface{}{"scheme": name, "type": txn.TransactionType, "tamper": kind, "hash_recomputed": rehash, "client_cache": cacheMode, "path": path, "rejected_with": fmt.Sprint(err)})
 		}
 	})
 }
